@@ -26,7 +26,7 @@ EXPLANATION = ('Inductive step: after construction the per-anchor frame dictiona
                'and residue numbers from the argument.')
 BOUNDS = {'quick': {'reference': '3-chain and 4-star, 1 residue; 4-chain in 2 residues', 'target': '2 atoms',
                     'histories': 'all sequences of <= 2 operations over 9 operation kinds + one final valid call (91 for the 3-chain, 10 for the others)', 'inductive step': '1'},
-          'thorough': {'histories': 'all sequences of <= 3 operations (820)', 'reference': 'as quick plus 4-ring'}}
+          'thorough': {'histories': 'all sequences of <= 3 operations for the 3-chain (820), <= 2 for the others (91 each)', 'reference': 'as quick plus the 4-chain in one residue (a 4-ring with four anchors and three conformations per history exceeded 50 minutes and was dropped)'}}
 OUTSIDE = ['explicit histories longer than 3 operations (covered by the inductive step only)', 'binary64 rounding',
            'later changes of names / residue labels of the construction molecules (the statement speaks of what the map returns for an argument)']
 STUBS = ['scipy euclidean -> pure version', 'molecules built directly; the frame construction is the real calcule_base']
@@ -42,15 +42,15 @@ def cases(tier):
     graphs = {'chain3': (3, [(0, 1), (1, 2)], [0, 0, 0]), 'star4': (4, [(0, 1), (0, 2), (0, 3)], [0, 0, 0, 0]),
               'chain4-2res': (4, [(0, 1), (1, 2), (2, 3)], [0, 0, 1, 1])}
     if tier == 'thorough':
-        graphs['ring4'] = (4, [(0, 1), (1, 2), (2, 3), (0, 3)], [0, 0, 0, 0])
+        graphs['chain4'] = (4, [(0, 1), (1, 2), (2, 3)], [0, 0, 0, 0])
     L = 2 if tier == 'quick' else 3
     for nm, (n, g, res) in graphs.items():
         cs.append({'name': 'inductive-step/%s' % nm, 'n': n, 'edges': g, 'res': res, 'mode': 'step'})
         hs = [list(h) for l in range(L + 1) for h in itertools.product(OPS, repeat=l)]
-        if nm != 'chain3' and tier == 'quick':
-            hs = [h for h in hs if len(h) <= 1]
-        for i in range(0, len(hs), 12):
-            cs.append({'name': 'histories/%s/%d' % (nm, i), 'n': n, 'edges': g, 'res': res, 'mode': 'hist', 'histories': hs[i:i + 12]})
+        if nm != 'chain3':
+            hs = [h for h in hs if len(h) <= (1 if tier == 'quick' else 2)]
+        for i in range(0, len(hs), 12 if tier == 'quick' else 30):
+            cs.append({'name': 'histories/%s/%d' % (nm, i), 'n': n, 'edges': g, 'res': res, 'mode': 'hist', 'histories': hs[i:i + (12 if tier == 'quick' else 30)]})
     return cs
 
 
@@ -217,6 +217,17 @@ def run_case(case):
                     terms = coords_terms(arg)
                     prev = [(r_, coords_terms(r_)) for _, r_, _, _ in log['returned']]
                     out = m(arg)
+                    # "unaffected by later changes to the molecules the map was built from": the result may mention the coordinates
+                    # written into the construction reference / target only if they are the argument's own coordinates
+                    from symx.core import term_vars as _tv
+                    deps = set()
+                    for row in coords_terms(out):
+                        for t_ in row:
+                            deps |= {v_ for v_ in _tv(t_) if v_[0] in 'mu' and v_[1:2].isdigit()}
+                    if cur[key] is V['m']:
+                        deps = {v_ for v_ in deps if not v_.startswith('m')}
+                    if deps:
+                        log.setdefault('leaks', []).append((op, sorted(deps)[:4]))
                     log['returned'].append((op, out, coords_terms(out), (cur[key], arg.resids[0] - 1)))
                     log['pure_ok'] &= same_terms(coords_terms(arg), terms)
                     log['pure_ok'] &= all(same_terms(coords_terms(r_), t_) for r_, t_ in prev)
@@ -260,6 +271,8 @@ def run_case(case):
                 prove_equal(ctx, '%s path%d: %s result = freshly built map on the argument\'s current coordinates' % (tagh, np_here, op), terms, out_f[q_], hist)
             flag('%s path%d: rejected arguments raise TypeError (%d/%d) and leave the map state untouched' % (
                 tagh, np_here, log['type_errors'], log['expected_type_errors']), log['type_errors'] == log['expected_type_errors'] and log['state_ok'], hist)
+            flag('%s path%d: results do not depend on coordinates written into the construction molecules after the map was built %s' % (tagh, np_here, log.get('leaks', '')),
+                 not log.get('leaks'), hist)
             flag('%s path%d: argument, previously returned molecules unchanged; names/resnames/order from the target, residue numbers from the argument' % (tagh, np_here),
                  bool(log['pure_ok']), hist)
             if len(samples) < 3:
